@@ -1,4 +1,4 @@
-import Rare.Proofs.C14HeatWidth
+import Rare.Proofs.C14RenderU
 import Rare.Gen.C14
 /-!
 # C14 – Renderers never crash and draw quantities proportionally within bounds
@@ -720,6 +720,54 @@ theorem spark_render_ok {L2 L10 : Rat → Rat} (h2 : LogLike L2) (h10 : LogLike 
       (¬ (c.rows.length : Int) > mini c.rows.length s.rowCount → s'.footerOffset = 0) :=
   spark_writeTable_ok h2 h10 env s vt hinv hrc hcc hmr rkeys ckeys c
 
+/-- `heat_render_ok` for EVERY float instance satisfying `UnitLaws` – in particular the real binary64 computation on int64
+cell values (`float_laws_f64`; the seeded change C14-degenerate-range-nan made exactly this renderer index its
+palette with `int(NaN)`): `Heatmap.WriteTable` on any aggregated state whose cell values (and fixed range ends) are in
+the domain returns; one cell per displayed column; exact row and column notes -/
+theorem heat_render_ok_any {α : Type} {A : Arith α} {Dom : Int → Prop} {Unit : α → Prop} {le : α → α → Prop} (U : UnitLaws A Dom Unit le)
+    (env : Env) (h : Heatmap) (vt : VirtualTerm) (ho : vt.closed = false) (hrc : 0 ≤ h.rowCount) (hcc : 0 ≤ h.colCount)
+    (rkeys ckeys : List Bytes) (c : Cells) (hc : DomCells Dom c) (hmn : Dom h.minVal) (hmx : Dom h.maxVal) :
+    ∃ h' vt' hdr, h.writeTable A env vt rkeys ckeys c = .ok (h', vt') ∧ vt'.closed = false ∧
+      (∀ (i : Nat) (r : Nat), (c.rows.take (mini c.rows.length h.rowCount).toNat)[i]? = some r →
+        ∃ line, vt'.lines[2 + i]? = some line ∧ IsHeatRow env (keyAt rkeys r) (mini c.cols.length h.colCount).toNat line) ∧
+      ((c.rows.length : Int) > mini c.rows.length h.rowCount →
+        vt'.lines[2 + (mini c.rows.length h.rowCount).toNat]? =
+          some (wrap env cBrightBlack (moreNote ((c.rows.length : Int) - mini c.rows.length h.rowCount))) ∧
+        h'.currentRows = 3 + mini c.rows.length h.rowCount) ∧
+      (¬ (c.rows.length : Int) > mini c.rows.length h.rowCount → h'.currentRows = 2 + mini c.rows.length h.rowCount) ∧
+      vt'.lines[1]? = some hdr ∧
+      (∃ body, hdr = (if mini (c.cols.length : Int) h.colCount < c.cols.length
+        then body ++ wrap env cBrightBlack ([32] ++ moreNote ((c.cols.length : Int) - h.colCount)) else body)) :=
+  heat_writeTable_ok_u U env h vt ho hrc hcc rkeys ckeys c hc hmn hmx
+
+/-- `spark_render_ok` for EVERY float instance satisfying `UnitLaws` (binary64 on int64 cell values included) -/
+theorem spark_render_ok_any {α : Type} {A : Arith α} {Dom : Int → Prop} {Unit : α → Prop} {le : α → α → Prop} (U : UnitLaws A Dom Unit le)
+    (env : Env) (s : Spark) (vt : VirtualTerm) (hinv : TableInv env s.table vt) (hrc : 0 ≤ s.rowCount) (hcc : 0 ≤ s.colCount)
+    (hmr : s.table.maxRows = s.rowCount + 1) (rkeys ckeys : List Bytes) (c : Cells) (hc : DomCells Dom c) :
+    ∃ s' vt' colIdx, s.writeTable A env vt rkeys ckeys c = .ok (s', vt') ∧ TableInv env s'.table vt' ∧
+      s.shownCols c = .ok colIdx ∧ (colIdx.length : Int) = mini c.cols.length s.colCount ∧
+      (∀ (i : Nat) (r : Nat), (s.shownRows c)[i]? = some r →
+        ∃ row, s'.table.rows[i + 1]? = some row ∧ IsSparkRow env s rkeys c colIdx r row) ∧
+      ((c.rows.length : Int) > mini c.rows.length s.rowCount →
+        s'.footerOffset = 1 ∧ vt'.lines[s'.table.activeRows.toNat]? =
+          some (wrap env cBrightBlack (moreNote ((c.rows.length : Int) - mini c.rows.length s.rowCount)))) ∧
+      (¬ (c.rows.length : Int) > mini c.rows.length s.rowCount → s'.footerOffset = 0) :=
+  spark_writeTable_ok_u U env s vt hinv hrc hcc hmr rkeys ckeys c hc
+
+/-- the cell values of every reachable aggregated state are int64: `Cells.sample` (the aggregators' `+=`) wraps -/
+theorem sampled_cells_int64 (c : Cells) (hc : DomCells I64 c) (r k : Nat) (inc : Int) : DomCells I64 (c.sample r k inc) := by
+  unfold Cells.sample
+  split
+  · intro e he
+    obtain ⟨e0, h0, rfl⟩ := List.mem_map.mp he
+    split
+    · exact i64_wrap _
+    · exact hc e0 h0
+  · intro e he
+    rcases List.mem_append.mp he with h | h
+    · exact hc e h
+    · simp at h; subst h; exact i64_wrap _
+
 /-- '(n more)': the rows note shows exactly the rows not drawn and appears iff there are any; the
 column note of the heatmap header shows exactly the columns not drawn -/
 theorem more_notes_exact {α : Type} (rows : List α) (limit : Int) (hl : 0 ≤ limit) (ncols colLimit : Int) :
@@ -807,6 +855,10 @@ example : (do let r ← BarGraph.writeOutput (f64Arith id id id id) ⟨false, fa
 example : Terminated ⟨true, true⟩ [0xe6, 0x97, 0xa5] ∧ Terminated ⟨true, true⟩ (27 :: ascii "[31mred" ++ 27 :: ascii "[0m") := by
   constructor <;> intro _ <;> decide +kernel
 
+example : DomCells I64 (Cells.sample [] 0 0 1700000000000000000) := sampled_cells_int64 [] (by intro e he; cases he) 0 0 _
+/-- the state of the seeded demo (one cell, 1.7e18, linear scale) on binary64: the heatmap renders; its one cell is the lowest colour -/
+example : ((Heatmap.writeTable (f64Arith id id id id) ⟨false, false⟩ { rowCount := 5, colCount := 10 } VirtualTerm.new [ascii "a"] [ascii "x"]
+    (Cells.sample [] 0 0 1700000000000000000)).toOption.map fun r => r.2.lines.drop 1) = some [ascii " x", ascii "a -"] := by decide +kernel
 /-- the compiled form of `{0}/{2}`: the same value under another maximum gives another text -/
 example : exprFormat [Expr.Comp.match_ 0, Expr.Stage.lit (ascii "/"), Expr.Comp.match_ 2] 5 0 9 = ascii "5/9" ∧
     exprFormat [Expr.Comp.match_ 0, Expr.Stage.lit (ascii "/"), Expr.Comp.match_ 2] 5 0 12 = ascii "5/12" := by decide +kernel
